@@ -305,7 +305,7 @@ type c12Scenario struct {
 }
 
 var c12V4Blocks = []string{"10.0.0.0/8", "192.168.1.0/24", "192.0.2.7", "172.16.0.0/12", "198.51.100.128/25", "203.0.113.4/30", "10.1.2.3/8", "100.64.0.0/10", "192.0.2.255/32", "203.0.113.9/31", "0.0.0.0/0"}
-var c12V6Blocks = []string{"fe80::/10", "2001:db8::/32", "2001:db8::1", "2001:db8:1:2::/64", "fe80::1234", "fd00::/8", "::1", "fe80::/64", "::ffff:192.0.2.0/120", "::ffff:10.9.8.7", "2001:db8:ffff::/127", "::/0"}
+var c12V6Blocks = []string{"fe80::/10", "2001:db8::/32", "2001:db8::1", "2001:db8:1:2::/64", "fe80::1234", "fd00::/8", "::1", "fe80::/64", "::ffff:192.0.2.0/120", "::ffff:10.9.8.7", "2001:db8:ffff::/127", "2001:0DB8:0:0::/48", "FE80::/10", "::/0"}
 var c12BadItems = []string{"ip:10.0.0.0/33", "ip:2001:db8::/129", "ip:300.1.1.1", "ip:10.0.0", "ip:", "", "host:example.com", "ip:10.0.0.0/8/8", "ip:10.0.0.1-10.0.0.9", "ip:fe80::1%eth0", "nonsense", "ip:10.0.0.0/-1", "cidr:10.0.0.0/8", "ip:10.0.0.0/", "ip:/8", "ip:2001:db8:::1"}
 var c12Pool = []string{"192.0.2.10", "10.1.2.3", "10.255.255.255", "11.0.0.0", "192.168.1.77", "192.168.2.1", "172.31.255.255", "172.32.0.0", "8.8.8.8", "203.0.113.5", "203.0.113.8",
 	"2001:db8::1", "2001:db8:1:2::abcd", "2001:db9::1", "fe80::1", "fe80::1234", "fe80:0:0:1::5", "febf::1", "fec0::1", "fd12:3456::1", "::1", "::ffff:192.0.2.77", "::ffff:10.9.8.7", "198.51.100.127", "198.51.100.128"}
@@ -386,6 +386,19 @@ func c12Admitted(g *simcore.Tape, rt *c12Route) netip.Addr {
 	return a
 }
 
+// c12RandBlock writes a random IPv4 or IPv6 block with an arbitrary prefix length
+// (the base keeps its host bits, which CIDR notation permits).
+func c12RandBlock(g *simcore.Tape) string {
+	if g.Bool() {
+		b := g.Bytes(16)
+		b[0] = 0x20 | b[0]&0x0f // 2000::/4, never IPv4-mapped
+		a, _ := netip.AddrFromSlice(b)
+		return netip.PrefixFrom(a, g.Range(0, 128)).String()
+	}
+	a, _ := netip.AddrFromSlice(g.Bytes(4))
+	return netip.PrefixFrom(a, g.Range(0, 32)).String()
+}
+
 func c12GenRules(g *simcore.Tape, rt *c12Route) {
 	items := func() []string {
 		n := g.Range(1, 4)
@@ -394,6 +407,8 @@ func c12GenRules(g *simcore.Tape, rt *c12Route) {
 			switch {
 			case g.Chance(9):
 				out = append(out, simcore.Pick(g, c12BadItems))
+			case g.Chance(20):
+				out = append(out, "ip:"+c12RandBlock(g))
 			case g.Chance(35):
 				out = append(out, "ip:"+simcore.Pick(g, c12V6Blocks))
 			default:
